@@ -115,10 +115,37 @@ func verifHarnessC19HasExpired() {
 	got := s.hasExpired(cs)
 	age := timeAgeNS(verifNowSec, cs.LastAccess)
 	want := and(not(cs.Declared), s.expiryAge > 0, age > int64(s.expiryAge))
-	assert("expiry-predicate", got == want)
+	// "only if": the property bounds expiry from one side (an implementation may be more conservative, e.g. allow for
+	// the resolution of the stamps); that expiry happens at all is witnessed by reach("end-expired")
+	assert("expiry-predicate", implies(got, want))
 	if s.expiryAge <= 0 {
 		assert("no-expiry-age-no-expiry", !got)
 	}
+	if got {
+		reach("end-expired")
+	}
+	reach("end")
+}
+
+// C19 with a clock finer than the stamps: the stamp of a read is the whole second it happened in, the read itself may
+// have happened at any instant of that second. A secret is dropped ONLY IF it has not been read for longer than the age:
+// whatever the fractions, expiry implies that the real time since the read exceeds the age.
+func verifHarnessC19SubSecond() {
+	verifEnvReset()
+	s := &Store{timeNow: verifTimeNow, logf: verifLogf}
+	s.expiryAge = time.Duration(nondetMathI64("expiryAge"))
+	verifNowSec = nondetMathI64("now")
+	verifNowFrac = nondetMathI64("now.frac")
+	readFrac := nondetMathI64("read.frac")
+	assume(and(verifNowSec >= 1, verifNowSec < 1<<40, verifNowFrac >= 0, verifNowFrac < 1000000000, readFrac >= 0, readFrac < 1000000000))
+	cs := &cachedSecret{LastAccess: nondetMathI64("access"), Declared: nondetBool("declared")}
+	assume(and(cs.LastAccess >= 1, cs.LastAccess < 1<<40)) // a real read happened (stamp 0 means "never read")
+	// the read precedes now
+	nowNS := verifNowSec*1000000000 + verifNowFrac
+	readNS := cs.LastAccess*1000000000 + readFrac
+	assume(readNS <= nowNS)
+	got := s.hasExpired(cs)
+	assert("dropped-only-if-really-unread-for-longer-than-the-age", implies(got, and(not(cs.Declared), s.expiryAge > 0, nowNS-readNS > int64(s.expiryAge))))
 	reach("end")
 }
 
